@@ -11,13 +11,14 @@
 import Vita.C01.Lemmas
 import Vita.C01.PrimLemmas
 import Vita.C01.Example
+import Vita.C01.Bridge
 
 set_option linter.unusedSimpArgs false
 set_option linter.unusedSectionVars false
 set_option linter.unusedVariables false
 
 namespace Vita.C01
-open Vita
+open Vita Vita.C01.Lang
 
 variable {F : Type}
 
@@ -209,18 +210,190 @@ theorem table_bounded [FloatOps F] : ∀ e ∈ (table : List (Entry F)), e.body.
   · exact progOfE_bounded _ _ idx_ife.1 idx_ife.2
   · exact progOfE_bounded _ _ idx_ifl.1 idx_ifl.2
   · exact progOfE_bounded _ _ idx_ifz.1 idx_ifz.2
-  · show (intErcP : Prog F (Val F)).Bounded _; unfold intErcP; bounded_steps
-  · show (landP : Prog F (Val F)).Bounded _; unfold landP; bounded_steps
-  · show (lorP : Prog F (Val F)).Bounded _; unfold lorP; bounded_steps
-  · show (lnotP : Prog F (Val F)).Bounded _; unfold lnotP; bounded_steps
-  · show (boolP false : Prog F (Val F)).Bounded _; unfold boolP; bounded_steps
-  · show (boolP true : Prog F (Val F)).Bounded _; unfold boolP; bounded_steps
+  · show (GenPrims.integer_numberP : Prog F (Val F)).Bounded _; unfold GenPrims.integer_numberP; bounded_steps
+  · show (GenPrims.boolean_l_andP : Prog F (Val F)).Bounded _; unfold GenPrims.boolean_l_andP; bounded_steps
+  · show (GenPrims.boolean_l_orP : Prog F (Val F)).Bounded _; unfold GenPrims.boolean_l_orP; bounded_steps
+  · show (GenPrims.boolean_l_notP : Prog F (Val F)).Bounded _; unfold GenPrims.boolean_l_notP; bounded_steps
+  · show (GenPrims.boolean_zeroP : Prog F (Val F)).Bounded _; unfold GenPrims.boolean_zeroP; bounded_steps
+  · show (GenPrims.boolean_oneP : Prog F (Val F)).Bounded _; unfold GenPrims.boolean_oneP; bounded_steps
 
 theorem varP_bounded [FloatOps F] (k n : Nat) : (varP k : Prog F (Val F)).Bounded n := by
-  unfold varP; bounded_steps
+  unfold varP GenPrims.variableP; bounded_steps
 
 theorem constP_bounded [FloatOps F] (v : Val F) (n : Nat) : (constP v : Prog F (Val F)).Bounded n := by
-  unfold constP; bounded_steps
+  unfold constP GenPrims.constantP; bounded_steps
+
+/-! ### the interpreter EXTRACTED from the current sources
+
+`runG` / `run0G` / `penaltyG` (ModelG.lean) execute the terms that tools/translate_interp.py extracts from
+interpreter.cc, core_interpreter.h, gp/src/interpreter.tcc, symbol.h/.cc, comp_penalty.h (GenInterp.lean)
+with the semantics of Lang.lean.  `XS` = `cache_`, `ip_`, `example_`. -/
+
+/-- the extracted `src_interpreter::run(ex)` IS the model's `run` (value and object state) -/
+theorem gen_run_eq_model (g : Genome F) (ex : List (Val F)) (x : XS F) :
+    runG g ex x = ((run g ex x.1).1, ((run g ex x.1).2, some ex)) :=
+  runG_eq g ex x
+
+/-- … and the extracted `interpreter<i_mep>::run()` is `run` on the empty example -/
+theorem gen_run0_eq_model (g : Genome F) (x : XS F) :
+    run0G g x = ((run g [] x.1).1, ((run g [] x.1).2, x.2)) :=
+  run0G_eq g x
+
+/-- THE PROPERTY for the code as extracted: from every state of the object (memo, `ip_`, `example_`
+    left by anything before) `src_interpreter::run(ex)` returns the denotation of the program -/
+theorem gen_interp_eq_denote (g : Genome F) (h : WF g) (x : XS F) (ex : List (Val F)) :
+    (runG g ex x).1 = denote g ex g.best := by
+  rw [runG_eq]; exact interp_eq_denote g h x.1 ex
+
+theorem gen_interp0_eq_denote (g : Genome F) (h : WF g) (x : XS F) :
+    (run0G g x).1 = denote g [] g.best := by
+  rw [run0G_eq]; exact interp_eq_denote g h x.1 []
+
+/-- the value is the recursive evaluation of the active expression tree -/
+theorem gen_interp_eq_tree (g : Genome F) (h : WF g) (x : XS F) (ex : List (Val F)) :
+    (runG g ex x).1 = (tree g g.best).eval (varOf ex) := by
+  rw [gen_interp_eq_denote g h, denote_eq_tree]
+
+/-- history independence of the extracted code: one object, any sequence of examples, any start state -/
+theorem gen_run_history_indep (g : Genome F) (h : WF g) :
+    ∀ (exs : List (List (Val F))) (x : XS F),
+      (runManyG g x exs).1 = exs.map (fun ex => denote g ex g.best) := by
+  intro exs
+  induction exs with
+  | nil => intro x; rfl
+  | cons ex rest ih =>
+    intro x
+    simp only [runManyG, List.map_cons]
+    rw [gen_interp_eq_denote g h x ex, ih]
+
+/-- interleaving with runs of another program (of any shape) through the same object changes nothing -/
+theorem gen_run_after_other_program (g g' : Genome F) (h : WF g) (x : XS F) (ex ex' : List (Val F)) :
+    (runG g ex (runG g' ex' x).2).1 = denote g ex g.best :=
+  gen_interp_eq_denote g h _ ex
+
+/-- layout independence for the extracted code -/
+theorem gen_layout_indep (g g' : Genome F) (h : WF g) (h' : WF g')
+    (ht : tree g g.best = tree g' g'.best) (x x' : XS F) (ex : List (Val F)) :
+    (runG g ex x).1 = (runG g' ex x').1 := by
+  rw [gen_interp_eq_denote g h, gen_interp_eq_denote g' h', layout_indep g g' _ _ ht]
+
+/-- intron independence for the extracted code -/
+theorem gen_intron_indep (g g' : Genome F) (h : WF g) (h' : WF g') (hr : g'.rows = g.rows)
+    (hb : g'.best = g.best) (hsame : ∀ m, Reach g g.best m → g'.gene m = g.gene m)
+    (x x' : XS F) (ex : List (Val F)) : (runG g' ex x').1 = (runG g ex x).1 := by
+  rw [gen_interp_eq_denote g h, gen_interp_eq_denote g' h', hb, intron_indep g g' hr g.best hsame]
+
+/-- no access outside the genome matrix / beyond a gene's arguments by the extracted code -/
+theorem gen_in_bounds (g : Genome F) (h : WF g) (x : XS F) (ex : List (Val F)) (hok : x.1.ok = true) :
+    (runG g ex x).2.1.ok = true := by
+  rw [runG_eq]; exact in_bounds g h x.1 ex hok
+
+/-- a successful run leaves a sound memo, `ip_` at the start locus and `example_` at the example -/
+theorem gen_run_restores (g : Genome F) (h : WF g) (x : XS F) (ex : List (Val F))
+    (hne : (runG g ex x).1 ≠ none) :
+    MemoOK g ex (runG g ex x).2.1.memo ∧ (runG g ex x).2.1.ip = g.best ∧ (runG g ex x).2.2 = some ex := by
+  rw [runG_eq] at hne ⊢
+  exact ⟨(run_restores g h x.1 ex hne).1, (run_restores g h x.1 ex hne).2, rfl⟩
+
+/-- a team: each member, run on its own object (in whatever state), returns its own denotation -/
+theorem team_members_eq_denote (gs : List (Genome F)) (h : ∀ g ∈ gs, WF g) :
+    ∀ (xs : List (XS F)), xs.length = gs.length → ∀ ex : List (Val F),
+      (teamRunG gs xs ex).map (·.1) = gs.map (fun g => denote g ex g.best) := by
+  induction gs with
+  | nil => intro xs _ ex; simp [teamRunG]
+  | cons g gs ih =>
+    intro xs hl ex
+    cases xs with
+    | nil => simp at hl
+    | cons x xs =>
+      simp only [teamRunG, List.zipWith_cons_cons, List.map_cons]
+      rw [gen_interp_eq_denote g (h g (by simp)) x ex]
+      have := ih (fun g' hg' => h g' (by simp [hg'])) xs (by simpa using hl) ex
+      simp only [teamRunG] at this
+      rw [this]
+
+/-- … over any sequence of examples with the members' objects reused -/
+theorem team_history_indep (gs : List (Genome F)) (h : ∀ g ∈ gs, WF g) :
+    ∀ (exs : List (List (Val F))) (xs : List (XS F)), xs.length = gs.length →
+      teamRunManyG gs xs exs = exs.map (fun ex => gs.map (fun g => denote g ex g.best)) := by
+  intro exs
+  induction exs with
+  | nil => intro xs _; rfl
+  | cons ex rest ih =>
+    intro xs hl
+    simp only [teamRunManyG, List.map_cons]
+    rw [team_members_eq_denote gs h xs hl ex, ih]
+    simp [teamRunG, hl]
+
+/-- `gene::locus_of_argument` as extracted is the model's `Gene.locusOfArg` -/
+theorem gen_locus_of_argument (gn : Gene F) (i : Nat) :
+    (⟨GenInterp.locus_of_argument.1.eval gn i, GenInterp.locus_of_argument.2.eval gn i⟩ : Locus) =
+      gn.locusOfArg i := rfl
+
+/-- the constructors build what `St.init` / `XS.init` say: a memo of the genome's shape, `ip_` at the
+    start locus, no example -/
+theorem gen_ctor_shape :
+    GenInterp.ctor = [("vita::core_interpreter", "()"), ("prg_", "ind"),
+                      ("cache_", "(ind->size(), ind->categories())"), ("ip_", "ind->best()")] ∧
+    GenInterp.src_ctor = [("interpreter<vita::i_mep>", "(prg)"), ("example_", "nullptr")] := by
+  decide
+
+/-! ### penalty() -/
+
+/-- `penalty()` of either class, from every state: the penalty of the symbol at the start locus (0 unless
+    it overrides `penalty_nvi`; the override is the four-term comparison penalty over the gene's argument
+    indices); the memo and `example_` are untouched, `ip_` ends at the start locus; the ghost flag records
+    exactly whether the start locus is inside the genome and an overriding symbol has four arguments -/
+theorem penalty_spec (g : Genome F) (src : Bool) (pen : Locus → Bool) (x : XS F) :
+    (penaltyG g src pen x).1 = some (penDenote g pen) ∧
+    (penaltyG g src pen x).2.1.memo = x.1.memo ∧ (penaltyG g src pen x).2.1.ip = g.best ∧
+    (penaltyG g src pen x).2.2 = x.2 ∧
+    (penaltyG g src pen x).2.1.ok =
+      (x.1.ok && decide (g.inB g.best) && (!pen g.best || decide (4 ≤ (g.gene g.best).args.length))) := by
+  rcases x with ⟨s, e⟩
+  rw [gen_penalty_eq]
+  exact ⟨rfl, rfl, rfl, rfl, rfl⟩
+
+/-- the penalty does not depend on the state of the object -/
+theorem penalty_history_indep (g : Genome F) (src src' : Bool) (pen : Locus → Bool) (x y : XS F) :
+    (penaltyG g src pen x).1 = (penaltyG g src' pen y).1 := by
+  rw [(penalty_spec g src pen x).1, (penalty_spec g src' pen y).1]
+
+/-- in bounds when every overriding symbol has (at least) four arguments -/
+theorem penalty_in_bounds (g : Genome F) (h : WF g) (src : Bool) (pen : Locus → Bool) (x : XS F)
+    (hp : pen g.best = true → 4 ≤ (g.gene g.best).args.length) (hok : x.1.ok = true) :
+    (penaltyG g src pen x).2.1.ok = true := by
+  rw [(penalty_spec g src pen x).2.2.2.2, hok]
+  have hb : decide (g.inB g.best) = true := decide_eq_true h.best
+  cases hpb : pen g.best with
+  | false => simp [hb]
+  | true => simp [hb, hp hpb]
+
+/-- the documented range `{0, 1, 2}` -/
+theorem penalty_le_two (g : Genome F) (pen : Locus → Bool) : penDenote g pen ≤ 2 := by
+  unfold penDenote cmpPen
+  split <;> (repeat' split) <;> omega
+
+/-- a penalty query between two runs changes no answer, and a run changes no penalty -/
+theorem run_after_penalty (g : Genome F) (h : WF g) (pen : Locus → Bool) (x : XS F) (ex : List (Val F)) :
+    (runG g ex (penaltyG g true pen x).2).1 = denote g ex g.best :=
+  gen_interp_eq_denote g h _ ex
+
+theorem penalty_after_run (g : Genome F) (pen : Locus → Bool) (x : XS F) (ex : List (Val F)) :
+    (penaltyG g true pen (runG g ex x).2).1 = some (penDenote g pen) :=
+  (penalty_spec g true pen _).1
+
+/-- every shipped primitive that overrides `penalty_nvi` (with the four-term comparison penalty) has four
+    arguments: with `penalty_in_bounds`, `penalty()` never reads beyond a gene's arguments -/
+theorem shipped_penalty_in_bounds :
+    ∀ e ∈ GenInterp.shipped, e.2.2.2 = true → 4 ≤ e.2.2.1 := by
+  decide
+
+/-- every shipped primitive class (AST of real.h, int.h, bool.h, string.h) has a body of the same name and
+    arity in the model's table -/
+theorem shipped_covered :
+    ∀ e ∈ GenInterp.shipped, (e.2.1, e.2.2.1) ∈ (table (F := C13.Toy)).map (fun t => (t.name, t.arity)) := by
+  decide
 
 /-! ### non-vacuity: a two-category DAG with a gene shared between two lazy paths is well formed,
     and on it the statements bite -/
@@ -236,7 +409,7 @@ theorem exampleG_wf : WF exampleG := by
     have : c = 0 ∨ c = 1 := by omega
     rcases ‹i = 0 ∨ i = 1 ∨ i = 2 ∨ i = 3› with rfl | rfl | rfl | rfl <;>
       rcases ‹c = 0 ∨ c = 1› with rfl | rfl <;>
-      simp only [exampleG, leaf, varP, constP, C13.Gen.iflP, C13.Gen.addP, C13.Gen.mulP] <;>
+      simp only [exampleG, leaf, varP, constP, GenPrims.variableP, GenPrims.constantP, C13.Gen.iflP, C13.Gen.addP, C13.Gen.mulP] <;>
       bounded_steps
   · decide
 
@@ -272,5 +445,25 @@ example : (run exampleG' [.dbl (some 9), .dbl (some 3)] (St.init exampleG')).1 =
 example : (runMany exampleG staleSt [[.dbl (some 1), .dbl (some 3)], [.dbl (some 9), .dbl (some 3)], []]).1 =
     [some (.dbl (some 4)), some (.dbl (some 2)), some .void] := by
   decide
+
+
+/-- the extracted interpreter on the example genome: fresh object, then rubbish-filled object -/
+example : (runG exampleG [.dbl (some 1), .dbl (some 3)] (XS.init exampleG)).1 = some (.dbl (some 4)) := by
+  rw [gen_run_eq_model]; decide
+
+example : (runG exampleG [.dbl (some 9), .dbl (some 3)] (staleSt, some [.str "x"])).1 = some (.dbl (some 2)) := by
+  rw [gen_run_eq_model]; decide
+
+/-- the start gene of `exampleG` is FIFL [1,0] [2,0] [2,1] [3,1]: no constraint broken … -/
+example : (penaltyG exampleG true (fun l => l == ⟨0, 1⟩) (staleSt, none)).1 = some 0 := by
+  rw [(penalty_spec _ _ _ _).1]; decide
+
+/-- … `exampleG'` compares [2,0] with [1,0] and hands back [1,1] or [4,1]: none either; a FIFL whose two
+    branches are the same gene is penalised -/
+example : cmpPen [1, 2, 3, 3] = 1 ∧ cmpPen [2, 2, 3, 3] = 2 ∧ cmpPen [1, 2, 3, 4] = 0 := by decide
+
+example : ∃ (g : Genome C13.Toy) (pen : Locus → Bool), WF g ∧ pen g.best = true ∧
+    4 ≤ (g.gene g.best).args.length :=
+  ⟨exampleG, fun l => l == ⟨0, 1⟩, exampleG_wf, by decide, by decide⟩
 
 end Vita.C01
